@@ -21,7 +21,9 @@ type cand struct {
 var quickN int
 
 // quickCheck: hyps ⊢ goal ? (synchronous, short timeout; only `unsat` counts as proved)
-func (c *FnCtx) quickCheck(hyps []string, goal string) bool {
+func (c *FnCtx) quickCheck(hyps []string, goal string) bool { return c.quickCheckT(hyps, goal, 3, []string{"z3-new", "cvc5"}) }
+
+func (c *FnCtx) quickCheckT(hyps []string, goal string, secs int, solvers []string) bool {
 	var b strings.Builder
 	b.WriteString(c.prelude())
 	for _, h := range hyps {
@@ -32,7 +34,7 @@ func (c *FnCtx) quickCheck(hyps []string, goal string) bool {
 	fn := filepath.Join(queryDir, fmt.Sprintf("houdini_%d_%d.smt2", os.Getpid(), quickN))
 	os.WriteFile(fn, []byte(b.String()), 0o644)
 	defer os.Remove(fn)
-	r := solve(context.Background(), fn, 3, []string{"z3-new", "cvc5"}, false)
+	r := solveRace(context.Background(), fn, secs, solvers, false)
 	return r.Status == "unsat"
 }
 
